@@ -61,9 +61,9 @@ Proofs/MulAux.vos Proofs/MulAux.vok Proofs/MulAux.required_vos: Proofs/MulAux.v 
 Proofs/Mul.vo Proofs/Mul.glob Proofs/Mul.v.beautified Proofs/Mul.required_vo: Proofs/Mul.v Base.vo Prim.vo Model/Digit.vo Model/Core.vo Model/Shift.vo Model/AddSub.vo Model/Mul.vo Proofs/MulAux.vo
 Proofs/Mul.vio: Proofs/Mul.v Base.vio Prim.vio Model/Digit.vio Model/Core.vio Model/Shift.vio Model/AddSub.vio Model/Mul.vio Proofs/MulAux.vio
 Proofs/Mul.vos Proofs/Mul.vok Proofs/Mul.required_vos: Proofs/Mul.v Base.vos Prim.vos Model/Digit.vos Model/Core.vos Model/Shift.vos Model/AddSub.vos Model/Mul.vos Proofs/MulAux.vos
-Properties/C02.vo Properties/C02.glob Properties/C02.v.beautified Properties/C02.required_vo: Properties/C02.v Base.vo Prim.vo
-Properties/C02.vio: Properties/C02.v Base.vio Prim.vio
-Properties/C02.vos Properties/C02.vok Properties/C02.required_vos: Properties/C02.v Base.vos Prim.vos
+Properties/C02.vo Properties/C02.glob Properties/C02.v.beautified Properties/C02.required_vo: Properties/C02.v Base.vo Prim.vo Model/Digit.vo Model/Core.vo Model/Shift.vo Model/AddSub.vo Model/Mul.vo Proofs/MulAux.vo Proofs/Mul.vo
+Properties/C02.vio: Properties/C02.v Base.vio Prim.vio Model/Digit.vio Model/Core.vio Model/Shift.vio Model/AddSub.vio Model/Mul.vio Proofs/MulAux.vio Proofs/Mul.vio
+Properties/C02.vos Properties/C02.vok Properties/C02.required_vos: Properties/C02.v Base.vos Prim.vos Model/Digit.vos Model/Core.vos Model/Shift.vos Model/AddSub.vos Model/Mul.vos Proofs/MulAux.vos Proofs/Mul.vos
 Properties/C03.vo Properties/C03.glob Properties/C03.v.beautified Properties/C03.required_vo: Properties/C03.v Base.vo Prim.vo
 Properties/C03.vio: Properties/C03.v Base.vio Prim.vio
 Properties/C03.vos Properties/C03.vok Properties/C03.required_vos: Properties/C03.v Base.vos Prim.vos
